@@ -684,7 +684,9 @@ def c6_rearm(fb, rep, clause='C10.6'):
         for b, i, e in st.events():
             if _writes_field(e, 'optionsSetFinished'):
                 g = G.guards_of(st, set(st.blocks), b)
-                ok = any('empty' in x and not x.startswith('!') for x in g)
+                pend = lambda n_: (lambda t: (('v', 1 if n_ == 0 else 0) if cname(t).split('::')[-1] == 'empty' else ('v', n_) if cname(t).split('::')[-1] == 'size' else None)
+                                   if t.get('k') == 'call' and t.get('recv') is not None and 'map' in ((t['recv'].get('t') or '') + (t['recv'].get('rc') or '')) else None)
+                ok = G.excluded_under(st, b, pend(2)) and not G.excluded_under(st, b, pend(0))
                 rep.ob(clause, 'K4 guard', 'setOptions declares the options applied only when none is pending', ok, R.site(st, e), 'guards %s' % g, st.sname)
         exits = _loop_exit_guards(st)
         # the only way out is the return inside the empty test
